@@ -530,6 +530,9 @@ theorem run_refines (L : KeyLaws hash eqv) (policy : Nat → Nat → Bool) (ops 
     | kvs =>
       simp only [HM.run, keyValues_refines hI, Assoc.run]
       exact ⟨hp, ih m a hI hp hn⟩
+    | keys =>
+      simp only [HM.run, keyValues_refines hI, Assoc.run]
+      exact ⟨hp.map _, ih m a hI hp hn⟩
 
 /-- `EdgeIndex` scripts: the replies are exactly those of the association list -/
 theorem ei_run_refines (L : KeyLaws hash eqv) (policy : Nat → Nat → Bool) (ops : List (EIOp κ)) :
@@ -569,6 +572,10 @@ theorem ei_run_refines (L : KeyLaws hash eqv) (policy : Nat → Nat → Bool) (o
       congr 1
       · congr 1; exact (hp.filter _).length_eq
       · exact ih m a hI hp hn
+    | unindexed =>
+      simp only [EI.run, Assoc.runEI]
+      congr 1
+      exact ih m a hI hp hn
 
 /-! ### counting with `AddEdgeCount` -/
 
